@@ -1,6 +1,7 @@
 package main
 
 import (
+	"fmt"
 	"go/ast"
 	"go/token"
 	"go/types"
@@ -307,4 +308,101 @@ func ruleBufferAgreement(c *Ctx) {
 	default:
 		c.ok("capacities", kpos.Pos(), true, "conn.Read delivers at most %d bytes and the pipeline reader takes up to %d per call", k, nlen)
 	}
+}
+
+func init() {
+	register(&Rule{ID: "R16.empty-message-rejected", Props: []string{"C16"}, Floor: 2,
+		Text: "the reviewed entries of R16.message-nonempty for the HTTP path rest on a claim that is checked here: in PipelineReader.ReadMessages a message is handed on (appended to the result) only where it is known to have at least one argument — under the false edge of `len(msg.Args) == 0` (whose true edge returns an error), or under `len(args) > 0` for the argument vector the message is filled from; a request whose path or body holds only blanks parses to no arguments, and (*Message).Command indexes Args[0] in the connection goroutine, which has no recover",
+		Run:  ruleEmptyMessageRejected})
+}
+
+func ruleEmptyMessageRejected(c *Ctx) {
+	rm := c.Func("internal/server", "PipelineReader", "ReadMessages")
+	if rm == nil {
+		c.und("anchors", 0, "PipelineReader.ReadMessages not found")
+		return
+	}
+	info := rm.Info()
+	fg := newFlowGraph(info, rm.Decl.Body)
+	isMsgPtr := func(t types.Type) bool {
+		p, ok := t.(*types.Pointer)
+		return ok && isNamedType(p.Elem(), modPath+"/internal/server", "Message")
+	}
+	n := 0
+	for _, l := range fg.Find(func(x ast.Node) bool {
+		call, ok := x.(*ast.CallExpr)
+		if !ok || len(call.Args) != 2 {
+			return false
+		}
+		id, ok := ast.Unparen(call.Fun).(*ast.Ident)
+		if !ok || id.Name != "append" {
+			return false
+		}
+		t := info.TypeOf(call.Args[1])
+		return t != nil && isMsgPtr(t)
+	}) {
+		call := l.Node.(*ast.CallExpr)
+		n++
+		key := "ReadMessages→" + exprStr(call)
+		if n > 1 {
+			key = fmt.Sprintf("%s#%d", key, n)
+		}
+		msg := call.Args[1]
+		good, why := false, ""
+		for _, f := range fg.DominatingFacts(l) {
+			be, ok := ast.Unparen(f.E).(*ast.BinaryExpr)
+			if !ok {
+				continue
+			}
+			lc, ok := ast.Unparen(be.X).(*ast.CallExpr)
+			if !ok || len(lc.Args) != 1 {
+				continue
+			}
+			if id, ok := ast.Unparen(lc.Fun).(*ast.Ident); !ok || id.Name != "len" {
+				continue
+			}
+			zero := false
+			if tv, ok := info.Types[be.Y]; ok && tv.Value != nil && tv.Value.String() == "0" {
+				zero = true
+			}
+			if !zero {
+				continue
+			}
+			nonEmpty := (be.Op == token.EQL && f.Neg) || ((be.Op == token.GTR || be.Op == token.NEQ) && !f.Neg)
+			if !nonEmpty {
+				continue
+			}
+			arg := ast.Unparen(lc.Args[0])
+			// len(msg.Args)
+			if se, ok := arg.(*ast.SelectorExpr); ok && se.Sel.Name == "Args" && sameExpr(info, se.X, msg) {
+				good, why = true, "dominated by len("+exprStr(arg)+") != 0"
+			}
+			// len(args) for the vector the message is filled from
+			if id, ok := arg.(*ast.Ident); ok {
+				filled := false
+				ast.Inspect(rm.Decl.Body, func(y ast.Node) bool {
+					as, ok := y.(*ast.AssignStmt)
+					if !ok || len(as.Lhs) != 1 || len(as.Rhs) != 1 {
+						return true
+					}
+					lse, ok := ast.Unparen(as.Lhs[0]).(*ast.SelectorExpr)
+					if !ok || lse.Sel.Name != "Args" || !sameExpr(info, lse.X, msg) {
+						return true
+					}
+					ast.Inspect(as.Rhs[0], func(z ast.Node) bool {
+						if zid, ok := z.(*ast.Ident); ok && info.ObjectOf(zid) == info.ObjectOf(id) {
+							filled = true
+						}
+						return true
+					})
+					return true
+				})
+				if filled {
+					good, why = true, "dominated by len("+id.Name+") > 0, the vector the message's arguments are copied from"
+				}
+			}
+		}
+		c.check(good, key, call.Pos(), why, "a message is handed on without a test that it has any argument: an HTTP request whose path or body holds only blanks (GET /+ HTTP/1.1) parses to an empty argument vector, Message.Command() then indexes Args[0] in the connection goroutine and the whole server process exits")
+	}
+	c.stat("messages_handed_on", n)
 }
